@@ -42,7 +42,7 @@ CHECKS = {
     "C03": {
         "level": "exploration", "shards": 16, "deadline_quick": 110, "deadline_thorough": 1800,
         "engine": "E-SEQ inputs through E-WORLD",
-        "technique": "bounded-exhaustive input enumeration: every <=k-field tampering of honestly signed messages (4 key types) x 4 signature policies x author / anonymous mode, each fed to a real node through the wire, by a third party and by the peer it names as author; own publications under every policy with node, custom and per-publication keys; independent re-implementation of the verification rule as oracle",
+        "technique": "bounded-exhaustive input enumeration: every <=k-field tampering of honestly signed messages (4 key types) x 4 signature policies x author / anonymous mode, each fed to a real node through the wire, by a third party and by the peer it names as author; own publications under every policy with node, custom and per-publication keys (a key with its own peer ID, and a key with a peer ID it does not belong to); independent re-implementation of the verification rule as oracle",
         "rule": "cases = (policy, anonymous mode, base message: 4 key types x signed/unsigned) x (all tamperings touching <= k of the fields data, topic, from, seqno, key, signature, unknown bytes with ops drop / empty / flip / swap-from-another-signed-message / re-sign-with-foreign-key); "
                 "non-trivial = distinct case that reached the signature / policy decision (carries a signature, or is judged under a non-strict policy, or was accepted)",
         "level_text": "all <=3-field (thorough: <=4-field) tamperings of eight base messages under the four policies crossed with author / anonymous mode are sent by a fake peer to a real node with a second subscriber; "
